@@ -2,6 +2,7 @@ import Autog.Lemmas.PopulateSpec
 import Autog.Lemmas.Reverse
 import Autog.Lemmas.BreakMergeChains
 import Autog.Model.Pipeline
+import Autog.Lemmas.StaticP4
 /-! # C02 — the output graph is the input graph
 
     Theorems about the model functions (keys `T:pre`, `T:phase1`, `T:break`, `T:phase5`, `T:post`, `T:output`):
@@ -16,8 +17,14 @@ import Autog.Model.Pipeline
       which is also what the predicate on the public result uses;
     * break/merge: `reduce_chain`, `erase_all` (lemma library) — merging removes exactly the links that breaking added;
     * `C02_collect_edges`: the result lists the edges of each component in edge-list order with the ids of their current ends.
-    PARTIAL: the composition of these facts along `layoutModel` into one end-to-end multiset statement is not assembled; the
-    end-to-end claim is decided per run by the multiset/direction/size predicates on the public result. -/
+    * END TO END for the node part (`C02_public_nodes`, `C02_public_nodes_with_helpers`): in the composed model `layoutComponent`
+      — both cycle breakers, both layerers, the exact ordering model, all five positioners, every modelled router — no phase ever
+      changes id, width, height or helper flag of an existing node, nodes are only appended, and every appended node is a helper
+      node (`StatEq`, Lemmas/Static*.lean: one frame lemma per model function, ~60 of them). Hence the nodes a caller gets back
+      for a component are, in order, exactly the nodes that went in, with the sizes `applySizes` gave them; with
+      `WithOutputVirtualNodes` they are followed by helper nodes only.
+    PARTIAL: the same composition for the EDGE part (multiset and direction through cycle breaking, long-edge cutting and merging)
+    is not assembled; it is decided per run by the multiset/direction predicates on the public result. -/
 
 namespace Autog
 
@@ -53,6 +60,76 @@ theorem C02_collect_no_helpers (cfg : Cfg) (shift : Rat) (ci : Nat) (g : G) (hv 
   simp only [collectComp, List.mem_map, List.mem_filter] at hn
   obtain ⟨nd, ⟨_, hf⟩, rfl⟩ := hn
   simpa [hv] using hf
+
+/-! ## end to end: the nodes of the public result -/
+
+def ONode.stat (n : ONode) : String × Rat × Rat × Bool := (n.id, n.w, n.h, n.virt)
+
+theorem collect_stat (cfg : Cfg) (shift : Rat) (ci : Nat) (g : G) :
+    (collectComp cfg shift ci g).nodes.map ONode.stat =
+      ((List.range g.nodes.size).filter fun i => !(g.node i).virt || cfg.virt).map fun i => (g.node i).stat := by
+  unfold collectComp
+  simp only
+  rw [toList_eq_range_map g, List.filter_map, List.map_map, List.map_map]
+  rfl
+
+theorem range_split (n m : Nat) (h : n ≤ m) : List.range m = List.range n ++ (List.range (m - n)).map (· + n) := by
+  have : m = n + (m - n) := by omega
+  conv => lhs; rw [this, List.range_add]
+  simp [Nat.add_comm]
+
+/-- END TO END (nodes, default output): whatever the graph, the algorithms and the sizes, the nodes returned for a component are
+    exactly its input nodes — same ids, same widths and heights, same order, no helper node -/
+theorem C02_public_nodes (cfg : Cfg) (hv : cfg.virt = false) (shift : Rat) (ci : Nat) (c : G × List Nat) (gf : G)
+    (hreal : ∀ i, i < c.1.nodes.size → (c.1.node i).virt = false)
+    (h : layoutComponent (fun g => (orderWMedianP 24 g).map (·.1)) cfg c = .ok gf) :
+    (collectComp cfg shift ci gf).nodes.map ONode.stat = (List.range c.1.nodes.size).map fun i => (c.1.node i).stat := by
+  have hs := statEq_layoutComponent_wmedian cfg c gf h
+  rw [collect_stat, range_split _ _ hs.size, List.filter_append, List.map_append]
+  have h1 : (List.range c.1.nodes.size).filter (fun i => !(gf.node i).virt || cfg.virt) = List.range c.1.nodes.size := by
+    apply List.filter_eq_self.2
+    intro i hi
+    have hi' : i < c.1.nodes.size := List.mem_range.1 hi
+    have := hs.stat i hi'
+    simp only [Node.stat, Prod.mk.injEq] at this
+    simp [this.2.2.2, hreal i hi']
+  have h2 : ((List.range (gf.nodes.size - c.1.nodes.size)).map (· + c.1.nodes.size)).filter
+      (fun i => !(gf.node i).virt || cfg.virt) = [] := by
+    apply List.filter_eq_nil_iff.2
+    intro i hi
+    obtain ⟨k, hk, rfl⟩ := List.mem_map.1 hi
+    have hk' := List.mem_range.1 hk
+    have := hs.fresh (k + c.1.nodes.size) (by omega) (by omega)
+    simp [this, hv]
+  rw [h1, h2, List.map_nil, List.append_nil]
+  apply List.map_congr_left
+  intro i hi
+  exact hs.stat i (List.mem_range.1 hi)
+
+/-- END TO END (nodes, helper nodes requested): the input nodes come first, unchanged and in order; everything after them is a
+    helper node -/
+theorem C02_public_nodes_with_helpers (cfg : Cfg) (hv : cfg.virt = true) (shift : Rat) (ci : Nat) (c : G × List Nat) (gf : G)
+    (h : layoutComponent (fun g => (orderWMedianP 24 g).map (·.1)) cfg c = .ok gf) :
+    ∃ helpers : List (String × Rat × Rat × Bool),
+      (collectComp cfg shift ci gf).nodes.map ONode.stat = ((List.range c.1.nodes.size).map fun i => (c.1.node i).stat) ++ helpers ∧
+      ∀ x ∈ helpers, x.2.2.2 = true := by
+  have hs := statEq_layoutComponent_wmedian cfg c gf h
+  refine ⟨((List.range (gf.nodes.size - c.1.nodes.size)).map (· + c.1.nodes.size)).map fun i => (gf.node i).stat, ?_, ?_⟩
+  · rw [collect_stat]
+    have hall : (List.range gf.nodes.size).filter (fun i => !(gf.node i).virt || cfg.virt) = List.range gf.nodes.size := by
+      apply List.filter_eq_self.2
+      intro i _
+      simp [hv]
+    rw [hall, range_split _ _ hs.size, List.map_append]
+    congr 1
+    apply List.map_congr_left
+    intro i hi
+    exact hs.stat i (List.mem_range.1 hi)
+  · intro x hx
+    obtain ⟨i, hi, rfl⟩ := List.mem_map.1 hx
+    obtain ⟨k, hk, rfl⟩ := List.mem_map.1 hi
+    have hk' := List.mem_range.1 hk
+    exact hs.fresh (k + c.1.nodes.size) (by omega) (by omega)
 
 example : (PopulateRename.populate [("a", "b"), ("b", "b"), ("c", "a"), ("a", "b")]).edges = [(0, 1), (1, 1), (2, 0), (0, 1)] := by decide
 example : (PopulateRename.populate [("a", "b"), ("b", "b"), ("c", "a"), ("a", "b")]).ids = ["a", "b", "c"] := by decide
